@@ -286,8 +286,28 @@ def generate_chain(rng, quick):
     return [chain_scenario(rng, rng.randrange(2, 6)) for _ in range(12 if quick else 150)]
 
 
+def exhaustive_linear(n, length, restart=True):
+    """Every producer schedule of the given length over n producers (honest Confirms)."""
+    import itertools
+    out = []
+    for sched in itertools.product(range(n), repeat=length):
+        t = Tree()
+        tip = 0
+        for bp in sched:
+            tip = t.mk(tip, bp)
+            t.ops.append(["D", 0, tip])
+        if restart:
+            t.ops.append(["S", 0])
+        out.append({"n": n, "nodes": 1, "self": [0], "ops": t.ops})
+    return out
+
+
 def generate(rng, quick):
     sc = []
+    if quick:
+        sc += exhaustive_linear(2, 5)
+    else:
+        sc += exhaustive_linear(2, 9) + exhaustive_linear(3, 7) + exhaustive_linear(4, 5)
     # exhaustive-ish small family: round robin for every producer count, restart after every block
     for n in range(1, 8):
         sc.append(round_robin(n, 4 * n + 6))
